@@ -8,7 +8,10 @@ ROOT=$(cd "$(dirname "$0")/.." && pwd)
 REPO=${VERIF_REPO:-/repo}
 export VERIF_EVIDENCE_DIR="$ROOT/work/evidence-mutant"
 cd "$REPO" || exit 2
-if ! git diff --quiet; then echo "repo working tree not clean"; exit 2; fi
+if ! git diff --quiet; then
+  # a snapshot repository may have been left patched by a killed run: restore it; the real /repo is never touched unasked
+  if [ "$REPO" != "/repo" ]; then git checkout -- . ; else echo "repo working tree not clean"; exit 2; fi
+fi
 restore() { git -C "$REPO" checkout -- . ; }
 trap restore EXIT
 git apply "$patch" || { echo "patch does not apply"; exit 2; }
